@@ -168,6 +168,27 @@ def run(C, R):
                        'from %s' % c, '%s:%s' % (cf['file'], cf['line']) if cf else None)
         if cfg != 'none':
             R.floor('C08.R2 clear-callers[%s]' % cfg, len(callers), 1)
+        # ... and there only on the path on which the LAST receiver goes away
+        for c in callers:
+            cf = F.fn(c)
+            if not cf:
+                continue
+            for path in E.run(c):
+                if path.exit != 'return':
+                    continue
+                clears = [e for e in path.events if e['k'] == 'call' and e['callee'] == clear['path']]
+                if not clears:
+                    continue
+                subs = [e for e in path.events if e['k'] == 'call' and e['name'] == 'fetch_sub'
+                        and e['args'][0][0] == 'ref' and fields_of(e['args'][0][1])[-1:] == ('receivers',)]
+                last = any(const_of(E, path.facts, e['ret']) == 1 and e['args'][1] == ('const', 1) for e in subs)
+                if last:
+                    R.ok('C08.R2', 'clear only for the last receiver|%s|%s' % (c, path_cond(E, path)))
+                else:
+                    R.fail('C08.R2', [c, 'clear-while-receivers-remain'],
+                           '%s discards the buffered values on a path that is not the drop of the LAST receiver '
+                           '(no receivers.fetch_sub(1) == 1): values are lost while receivers can still reach them '
+                           '[%s]' % (c, path_cond(E, path)), where(F, clears[0]), {'trace': trace_summary(path)})
         # R3: raw duplication / forgetting primitives outside the ring buffer
         bad = ('read', 'read_unaligned', 'read_volatile', 'write', 'copy', 'copy_nonoverlapping', 'forget', 'zeroed',
                'transmute', 'transmute_copy', 'assume_init', 'assume_init_read', 'uninit',
